@@ -13,9 +13,11 @@
 (***************************************************************************)
 EXTENDS Converter
 
-Mime(tf) == CASE tf = "pbf" -> "application/x-protobuf" [] tf = "png" -> "image/png" [] tf = "jpg" -> "image/jpeg"
-              [] tf = "webp" -> "image/webp" [] tf = "avif" -> "image/avif" [] tf = "json" -> "application/json"
-              [] OTHER -> "application/octet-stream"
+\* media types in use for a tile format (parameters such as ";charset" are stripped before the comparison)
+Mimes(tf) == CASE tf = "pbf" -> {"application/x-protobuf", "application/vnd.mapbox-vector-tile", "application/protobuf"}
+               [] tf = "png" -> {"image/png"} [] tf = "jpg" -> {"image/jpeg", "image/jpg"}
+               [] tf = "webp" -> {"image/webp"} [] tf = "avif" -> {"image/avif"} [] tf = "json" -> {"application/json"}
+               [] OTHER -> {"application/octet-stream"}
 
 \* content codings the client listed (tokens, lower-cased, positive weight) as codec names
 Accepted(tokens) == {IF t = "br" THEN "brotli" ELSE t : t \in {tokens[i] : i \in 1..Len(tokens)}} \cap {"gzip", "brotli"}
@@ -40,7 +42,7 @@ TileFails(q, src, flags, r) ==
               (IF r.status # 200 THEN {} ELSE
                \* (-9: sent with a coding the client listed but the harness cannot decode -- zstd; the body is then not judged)
                Fails("body", r.body = want \/ r.body = -9) \cup
-               Fails("content_type", r.ctype = Mime(src.tf)) \cup
+               Fails("content_type", r.ctype \in Mimes(src.tf)) \cup
                \* absent, or one of the codings the client listed (whichever that is: the property does not limit the server
                \* to gzip / br)
                Fails("content_encoding_listed", r.cenc = "" \/ r.cenc \in {q.accept[i] : i \in 1..Len(q.accept)}))
